@@ -137,9 +137,10 @@ def mark_record(case, f2, tid):
             "hasCats": bool(cats), "tags": tags, "F": F}
 
 
-def ltr_glyphs(f2):
+def ltr_glyphs(f2, extra=None):
     """Glyphs of left-to-right scripts the way the cursive writer classifies them: Script property of the
-    code point, closed over GSUB together with the direction-neutral glyphs."""
+    code point, closed over GSUB (and over the designspace rule substitutions `extra`: {glyph: {replacements}})
+    together with the direction-neutral glyphs."""
     from fontTools import subset, unicodedata
 
     cmap = f2.getBestCmap() or {}
@@ -150,26 +151,37 @@ def ltr_glyphs(f2):
             neutral.add(g)
         elif unicodedata.script_horizontal_direction(sc, "LTR") == "LTR":
             ltr.add(g)
-    if "GSUB" not in f2 or not f2["GSUB"].table.LookupList:
+    has_gsub = "GSUB" in f2 and f2["GSUB"].table.LookupList
+    if not has_gsub and not extra:
         return ltr
 
     def close(gl):
-        s = subset.Subsetter()
-        s.glyphs = set(gl)
-        f2["GSUB"].closure_glyphs(s)
-        return set(s.glyphs)
+        cur = set(gl)
+        while True:
+            new = set(cur)
+            if has_gsub:
+                s = subset.Subsetter()
+                s.glyphs = set(new)
+                f2["GSUB"].closure_glyphs(s)
+                new = set(s.glyphs)
+            for a, bs in (extra or {}).items():
+                if a in new:
+                    new |= set(bs)
+            if new == cur:
+                return cur
+            cur = new
 
     n = close(neutral) if neutral else set()
     return close(ltr | n) - n if ltr else set()
 
 
-def gdefcurs_record(case, f2, tid):
+def gdefcurs_record(case, f2, tid, extra=None):
     order = f2.getGlyphOrder()
     gid = {n: i for i, n in enumerate(order)}
     F = {"gpos": otproject.gpos(f2), "gdef": otproject.gdef(f2)}
     ufo = case["ufo"]
     cats = (ufo.get("lib") or {}).get("public.openTypeCategories", {})
-    ltr = ltr_glyphs(f2)
+    ltr = ltr_glyphs(f2, extra)
     all_anchor_names = {a["n"] for n in order if n in ufo["glyphs"] for a in ufo["glyphs"][n].get("anchors", [])}
     pairs = []
     if "entry" in all_anchor_names and "exit" in all_anchor_names:
